@@ -252,6 +252,44 @@ def run(tier, seed):
         rep.violation(key, f"{c['key']} ({dr}): a canonical encoding of the definition is not read and written back unchanged: {h[:160]}",
                       {"container": c["key"], "wowm": f"{os.path.relpath(c['file'], REPO)}:{c['line']}", "direction": dr, "input_frame_hex": fr.hex(),
                        "implementation": h[:400], "expected": f"ok {fr.hex()[:80]}... consumed={len(fr)}", "replay_cmd": f"echo '{rq[:20000]}' | {har}"})
+    # ---- probe of a recorded finding: packed spline points.  The model treats the packed u32 of a MonsterMoveSplines point as opaque
+    # bits (Model/Sem.lean `encSplines`); the library converts it to floats by INTEGER division by 4 (util/functions/shared.rs
+    # packed_to_vector3d) and so drops the two low bits of every component: such a message is not written back as it was read.  The
+    # generated values avoid those bits (Model/SemIO.lean genPrim); here one witness per message demonstrates the finding.
+    sp_req, sp_meta = [], []
+    dsp = Driver()
+    for c in ok:
+        if "MonsterMoveSplines" not in c["tokens"] or c["tokens"][-3:-1] != ["prim", "MonsterMoveSplines"]:
+            continue
+        for s_ in range(40):
+            g_ = dsp.ask(f"gen {c['key']} {seed * 31 + s_} 3 1000000")
+            if not g_.startswith("ok") or g_.split()[1] == "-":
+                continue
+            body = bytearray.fromhex(g_.split()[1])
+            # splines are the last member: count, 12-byte first point, 4 bytes per further point
+            if len(body) >= 24 and body[-4:] != b"\x00\x00\x00\x00" or len(body) >= 24:
+                cnt_pos = None
+                for k_ in range(len(body) - 20, -1, -1):
+                    n_ = int.from_bytes(body[k_:k_ + 4], "little")
+                    if n_ >= 2 and k_ + 4 + 12 + 4 * (n_ - 1) == len(body):
+                        cnt_pos = k_
+                        break
+                if cnt_pos is None:
+                    continue
+                body[-4:] = (1).to_bytes(4, "little")          # x = one quarter unit
+                dr = directions(c)[0]
+                fr = frame(libname(c), dr, c["opcode"], bytes(body))
+                sp_req.append(f"codec {libname(c)} {dr} {fr.hex()}")
+                sp_meta.append((c, dr, fr))
+                break
+    dsp.close()
+    sp_out = run_parallel(har, sp_req, jobs=4) if sp_req else []
+    for (c, dr, fr), rq, h in zip(sp_meta, sp_req, sp_out):
+        if h.startswith("ok") and h.split()[1] != fr.hex() and bytes.fromhex(h.split()[1])[:-4] == fr[:-4]:
+            rep.violation("C01/spline/packed-point-quarter-units-lost", f"{c['key']} ({dr}): a packed spline point with a quarter-unit component (…01000000) is read and written back as …{h.split()[1][-8:]}",
+                          {"container": c["key"], "direction": dr, "input_frame_hex": fr.hex(), "implementation": h[:600], "replay_cmd": f"echo '{rq[:20000]}' | {har}"})
+        elif not (h.startswith("ok") and h.split()[1] == fr.hex()):
+            rep.violation(f"C01/{c['key']}/spline-probe", f"{c['key']} ({dr}): the spline probe frame is not handled as expected: {h[:160]}", {"container": c["key"], "input_frame_hex": fr.hex(), "implementation": h[:600]})
     # ---- fourth stream: dictionary values.  Hand-written conversions of built-in scalar types (Population, DateTime, ...) treat particular
     # numbers specially; the numeric literals of those sources, and their neighbours as f32 bit patterns / integers, are put into every
     # wide-enough plain integer field (T-gen of the dictionary: tools/pyenc.literal_pool); read -> write must still be the identity
